@@ -25,8 +25,12 @@ void h_fold(void) {
     _Bool comp = nondet_bool(), imp = nondet_bool(), hasvt = nondet_bool(); int ptr = nondet_bool();
     g_in_val = val; g_in_size = (int)sz; g_in_sign = s; g_in_comp = comp; g_in_imp = imp; g_in_ptr = ptr; g_in_hasvt = hasvt;
     bigint res_int = 0, res_wide = 0; double res_float = 0;
+    op1_unsigned64 = nondet_bool(); op2_unsigned64 = nondet_bool(); calc_result_unsigned = nondet_biguint();
+    if (comp) __CPROVER_assume((val == 0 || val == 1) && calc_result_unsigned <= 1);
     fold_block(val, 0, imp, comp, hasvt, s, ptr, sz, &res_int, &res_wide, &res_float);
-    if (!imp && !comp && hasvt && s == Sign_UNSIGNED && !ptr && sz >= 1 && sz < 8) {
+    if (comp && (op1_unsigned64 || op2_unsigned64)) {
+        __CPROVER_assert(res_int == (bigint)calc_result_unsigned, "operands whose common type is unsigned 64 bits are compared as unsigned values");
+    } else if (!imp && !comp && hasvt && s == Sign_UNSIGNED && !ptr && sz >= 1 && sz < 8) {
         __CPROVER_assert((biguint)res_int == ((biguint)val & ((1ULL << (8 * sz)) - 1)), "a known / possible result of unsigned arithmetic is reduced modulo 2^N");
         __CPROVER_assert(res_wide == val, "the unreduced result is kept in wideintvalue");
     } else {
@@ -35,6 +39,7 @@ void h_fold(void) {
 }
 void h_cover(void) {
     bigint res_int = 0, res_wide = 0; double res_float = 0;
+    op1_unsigned64 = 0; op2_unsigned64 = 0; calc_result_unsigned = 0;
     fold_block(4294967296LL, 0, 0, 0, 1, Sign_UNSIGNED, 0, 4, &res_int, &res_wide, &res_float);
     __CPROVER_assert(!(res_int == 0 && res_wide == 4294967296LL), "COVER: 4294967295u + 1u");
     fold_block(-5, 0, 0, 0, 1, Sign_SIGNED, 0, 4, &res_int, &res_wide, &res_float);
@@ -56,19 +61,24 @@ struct Log : ErrorLogger {
     void reportErr(const ErrorMessage &) override {}
     void reportMetric(const std::string &) override {}
 };
-int main() {
-    const std::string code = "long long f(void) { long long x = 4294967295u + 1u; return x; }";
+static int check(const std::string &expr, const std::string &op, long long want) {
+    const std::string code = "long long f(void) { long long x = " + expr + "; return x; }";
     Settings settings; settings.platform.set(Platform::Type::Unix64); Log log;
     Tokenizer tokenizer(TokenList(settings, Standards::Language::C), log);
     tokenizer.list.appendFileIfNew("t.c");
     if (!tokenizer.list.createTokensFromBuffer(code.data(), code.size()) || !tokenizer.simplifyTokens1("")) return 2;
     for (const Token *tok = tokenizer.tokens(); tok; tok = tok->next()) {
-        if (tok->str() != "+") continue;
-        if (!tok->hasKnownIntValue()) { printf("no known value\n"); return 0; }
-        printf("%s on unix64: 4294967295u + 1u has the known value %lld; a compiler: 0\n", code.c_str(), (long long)tok->getKnownIntValue());
-        return tok->getKnownIntValue() == 0 ? 0 : 1;
+        if (tok->str() != op || !tok->astOperand2()) continue;
+        if (!tok->hasKnownIntValue()) { printf("%s: no known value\n", expr.c_str()); return 0; }
+        printf("%s on unix64: %s has the known value %lld; a compiler: %lld\n", code.c_str(), expr.c_str(), (long long)tok->getKnownIntValue(), want);
+        return tok->getKnownIntValue() == want ? 0 : 1;
     }
     return 2;
+}
+int main() {
+    const int a = check("4294967295u + 1u", "+", 0);
+    const int b = check("-1 < sizeof(int)", "<", 0);
+    return (a == 1 || b == 1) ? 1 : (a == 2 || b == 2) ? 2 : 0;
 }
 '''
 
@@ -93,7 +103,9 @@ def build(ctx):
         (r'\bresult\.isFloatValue\(\)', 'res_is_float', 1, 1),
         (r'\bresult\.floatValue = ', '*res_float = ', 1, 1),
         (r'\bresult\.isImpossible\(\)', 'res_impossible', 0, 1),
-        (r'\bparent->isComparisonOp\(\)', 'parent_is_comp', 0, 1),
+        (r'\bparent->isComparisonOp\(\)', 'parent_is_comp', 0, 2),
+        (r'\bisUnsigned64\(parent->astOperand([12])\(\), settings\)', r'op\1_unsigned64', 0, 2),
+        (r'\(bigint\)\(calculate\(parent->str\(\),\s*\(biguint\)\(intValue1\(\)\),\s*\(biguint\)\(intValue2\(\)\),\s*&error\)\)', '(bigint)(calc_result_unsigned)', 0, 1),
         (r'\bastIsUnsigned\(parent\)', '(parent_has_vt && vt_sign == Sign_UNSIGNED)   /* astIsUnsigned */', 0, 1),
         (r'\bparent->valueType\(\)->pointer\b', 'vt_pointer', 0, 1),
         (r'\bparent->valueType\(\)->getSizeOf\(settings,\s*ValueType::Accuracy::ExactOrZero,\s*ValueType::SizeOf::Pointer\)', 'vt_size', 0, 1),
@@ -104,13 +116,15 @@ def build(ctx):
         raise extract.ExtractError("K61: folding block not fully lowered: %r" % re.findall(r'[^\n]*(?:\bparent\b|result\.|settings|std::)[^\n]*', extract.mask(t))[:3])
     kb.rules_fired = n
     text = (_common.BASE + enums + trunc +
+            "_Bool op1_unsigned64, op2_unsigned64;   /* an operand has an unsigned 64-bit integer type (isUnsigned64) */\nbiguint calc_result_unsigned;           /* calculate() on the operand values as unsigned 64-bit values */\n"
             "static void fold_block(bigint calc_result, _Bool res_is_float, _Bool res_impossible, _Bool parent_is_comp, _Bool parent_has_vt, enum Sign vt_sign, int vt_pointer, size_t vt_size, bigint *res_int, bigint *res_wide, double *res_float)\n{\n%s\n}\n"
             % extract.strip_comments(t))
     extract.residue_scan(text, ID)
     kb.ctext = text + HARNESS
     kb.job("fold", "h_fold", replace=["truncateIntValue"], replay="wrap", note="loop-free region; every 64-bit result, result type size 0/1/2/4/8, every signedness, pointer / comparison / impossible flags")
     kb.job("cover", "h_cover", kind="cover", replace=["truncateIntValue"])
-    kb.assumptions += ["region interface: the result of calculate() (K06) is an input; the parent's ValueType as (has, sign, pointer, size) with ValueType::getSizeOf an oracle; astIsUnsigned is `valueType() && sign == UNSIGNED`",
+    kb.assumptions += ["calculate() on unsigned 64-bit operand values (the biguint instantiation of the template) is an input, not verified",
+                       "region interface: the result of calculate() (K06) is an input; the parent's ValueType as (has, sign, pointer, size) with ValueType::getSizeOf an oracle; astIsUnsigned is `valueType() && sign == UNSIGNED`",
                        "operands are converted to the common type before (K60); division and remainder of converted operands need no reduction",
                        "impossible results (bounds) are not reduced: recorded finding K44.stmt-unsigned-wrap covers that class"]
 
